@@ -124,8 +124,26 @@ func (o *Once) Do(f func()) {
 // over its whole capacity — exactly what its next owner is entitled to do — so
 // that any use of memory after Put becomes visible deterministically.
 type Pool struct {
-	New   func() any
-	Items []any
+	New        func() any
+	Items      []any
+	registered bool
+}
+
+// Pools lists every pool that has been used (so that a harness can reset them).
+var Pools []*Pool
+
+func (p *Pool) register() {
+	if !p.registered {
+		p.registered = true
+		Pools = append(Pools, p)
+	}
+}
+
+// ResetPools empties every pool (start of an execution).
+func ResetPools() {
+	for _, p := range Pools {
+		p.Items = nil
+	}
 }
 
 var Scribble bool
@@ -161,6 +179,7 @@ func (p *Pool) DefaultGet(idx int) any {
 
 func (p *Pool) Get() any {
 	Ops++
+	p.register()
 	if C != nil {
 		return C.PoolGet(p)
 	}
@@ -173,6 +192,7 @@ func (p *Pool) Get() any {
 
 func (p *Pool) Put(x any) {
 	Ops++
+	p.register()
 	if C != nil {
 		C.PoolPut(p, x)
 		return
